@@ -103,12 +103,16 @@ def nop_oracle(chk, classes, pagingtracer, simutils):
                         break
 
 
-def uncontended_state(rng, tbl, op):
+def uncontended_state(rng, tbl, op, b_reg=None):
     """A state in which no address the instruction can put on the bus is contended (48K)."""
     regs, fields, mem, ins, tracers = simcorr.rand_state(rng, tbl, op, t_bias=t_bias)
-    hi = lambda: rng.randrange(0x81, 0xFF)
+    # both uncontended regions of the 48K map: ROM (0x01..0x3E) and 0x81..0xFE (page margins keep
+    # IX+d / nn+1 / SP-2 inside the region)
+    hi = lambda: rng.randrange(0x81, 0xFF) if rng.randrange(4) else rng.randrange(0x01, 0x3F)
     for h in (2, 4, 6, 8, 10, 14, 0):       # B D H IXh IYh I A (port high byte of IN A,(n))
         regs[h] = hi()
+    if b_reg is not None:
+        regs[2] = b_reg
     regs[12] = rng.randrange(0x8100, 0xFF00)
     regs[3] |= 1                              # port low byte odd: not a ULA port
     pc = rng.randrange(0x8100, 0xFF00)
@@ -138,9 +142,21 @@ def cmio_vs_plain(chk, impls):
     for plain, cont in (('py-plain', 'py-cmio'), ('c-plain', 'c-cmio')):
         is_c = plain.startswith('c')
         for tbl, op in simcorr.all_slots():
-            for k in range(chk.scale(3, 30)):
-                unc = k % 3 == 2
-                st = uncontended_state(rng, tbl, op) if unc else simcorr.rand_state(rng, tbl, op, t_bias=t_bias)
+            # block I/O: region boundaries of the port's high byte, every run. OUTI/OUTD put (B-1):C on
+            # the bus (B = 0x40 -> 0x3Fxx, uncontended); INI/IND read B:C before the decrement. The repeating
+            # forms also put the pre-decrement BC on the bus during the five repeat cycles (as the
+            # simulators model them), so B itself must be uncontended there too.
+            directed = {0xA3: (0x40, 0x01, 0x81, 0x00, 0xC1), 0xAB: (0x40, 0x01, 0x81, 0x00, 0xC1),
+                        0xB3: (0x3F, 0x01, 0x81, 0x00, 0xC1, 0x02), 0xBB: (0x3F, 0x01, 0x81, 0x00, 0xC1, 0x02),
+                        0xA2: (0x3F, 0x00, 0x80, 0xFF, 0xBF), 0xAA: (0x3F, 0x00, 0x80, 0xFF, 0xBF),
+                        0xB2: (0x3F, 0x00, 0x80, 0xFF, 0xBF), 0xBA: (0x3F, 0x00, 0x80, 0xFF, 0xBF)}.get(op, ()) if tbl == 'ED' else ()
+            nk = chk.scale(3, 30)
+            for k in range(nk + len(directed)):
+                unc = k % 3 == 2 or k >= nk
+                st = (uncontended_state(rng, tbl, op, directed[k - nk] if k >= nk else None) if unc
+                      else simcorr.rand_state(rng, tbl, op, t_bias=t_bias))
+                if k >= nk:
+                    st[1][1] = rng.choice((14336 + 224 * rng.randrange(1, 190) + rng.randrange(0, 120), 14335 + rng.randrange(0, 40000)))
                 st[1][4] = 0                              # not halted (HALT state is handled in C10)
                 if is_c:
                     st[4][0] = 1 if (st[4][0] or st[4][1] or st[4][2]) else 0
